@@ -385,5 +385,7 @@ def cases(tier):
         cs += [H1(1, 3, 2, 4, True, "stack"), H1(2, 3, 1, 4, False, "prepost"), H1(3, 2, 2, 4, False, "ends"),
                H1(2, 3, 2, 3, True, "ends"), H1(3, 3, 1, 3, False, "stack"), H1(1, 4, 2, 4, False, "prepost"),
                H1(1, 2, 1, 4, False, "prepost", d=3), H1(2, 3, 1, 4, True, "none", num_steps=2)]
-        cs += [H2(3, 2, 1), H2(2, 3, 2), H3(3, None), H3(4, 2), H3(3, 2)]
+        cs += [H2(3, 2, 1), H2(2, 3, 2), H3(3, None), H3(4, 2), H3(3, 2), H3(4, 1), H1(3, 3, 1, 4, False, "prepost"),
+               H1(2, 2, 2, 4, "in", "ends"), H1(1, 4, 2, 3, True, "stack"), H1(2, 2, 1, 4, False, "stack", d=3),
+               H6(4, True, N=3), H6(4, "out", N=3, d=3), H5(4, d=3), H7(4)]
     return cs
